@@ -17,8 +17,13 @@
      -> (<state 0..5> ("line" ...))
 
    (7 2 <unix> "user" (<nonce> ...) <sha> <cfg> <legacy?>)    model client against the reference server
-     -> (<completed> (<ev> ...))        ev additionally (4 "line") = received                        *)
+     -> (<completed> (<ev> ...))        ev additionally (4 "line") = received
+
+   (7 3 <unix> "user" <keyring> (<nonce> ...) <sha> ("read" ...))   the client model on BYTES: the reads are
+       given to Model/Framing.v's dataReceived with the ClientAuthenticator model as its authenticator
+     -> ((<out> ...) <number of Line callbacks> <leftover: () closed | ("bytes")>)                     *)
 From Tx Require Import Lib.Base Lib.Sexp Model.AuthClient Spec.AuthClientSpec Model.AuthClientLoop.
+From Tx Require Model.Framing Model.AuthClientReads.
 Local Open Scope Z_scope.
 
 Definition unknown : bytes := [63%N].
@@ -142,6 +147,15 @@ Definition op (a : list sexp) : sexp :=
                    else handle user shared_keyring (nonce_in ns) (sha_in sh) in
           let y := handshake user (sha_in sh) h c unix 60 in
           SList [sbool (completed y); SList (map sev (handshake_log user (sha_in sh) h c unix 60))]
+      | _, _, _, _, _ => bad
+      end
+  | [SNum 3; u; SBytes user; SList k; SList ns; SList sh; SList rs] =>
+      match as_bool u, map_opt file_of k, map_opt as_bytes ns, map_opt pair_of sh, map_opt as_bytes rs with
+      | Some unix, Some k, Some ns, Some sh, Some reads =>
+          let r := AuthClientReads.reads_run user (lookup_in k) (nonce_in ns) (sha_in sh) unix reads in
+          SList [ SList (map sout (AuthClientReads.reads_outs user (lookup_in k) (nonce_in ns) (sha_in sh) unix reads));
+                  snat (length (filter (fun e => match e with Framing.Line _ => true | _ => false end) (fst r)));
+                  sopt SBytes (snd r) ]
       | _, _, _, _, _ => bad
       end
   | _ => bad
